@@ -124,6 +124,12 @@ def battery(quick=True):
                         expect = df.pid.to_numpy() if mode == "ids" else nearest(df, centres)
                         attempt(f"dataframe[n={n},chunk={c},{mode},cols={'+'.join(cols) or 'none'}]",
                                 lambda df=df, kw=kw, cols=cols, expect=expect: compare(yaw.Catalog.from_dataframe(target(), df, **kw), df, cols, expect))
+        # progress display on: nothing that is stored may change
+        dfp = make_df(200)
+        for workers in (1, 2):
+            attempt(f"dataframe[n=200,chunk=64,progress=True,workers={workers}]",
+                    lambda workers=workers: compare(yaw.Catalog.from_dataframe(target(), dfp, ra_name="ra", dec_name="dec", weight_name="w", patch_name="pid", chunksize=64,
+                                                                               max_workers=workers, progress=True), dfp, ("w",), dfp.pid.to_numpy()))
         # patch_num: centres are generated; only the union can be compared
         df = make_df(500)
         attempt("dataframe[n=500,chunk=64,patch_num=5]",
